@@ -272,6 +272,20 @@ def sp_engineered(tier):
                     H0 = rot(h0s, i + j)[1]
                     e = B.eng_idsign_e(l, oid, H0, H, k, a)
                     out.append(item('ref', 'bignIdSign', B.c_idsign(l, oid, H0, H, e, B.enc(l, k)), 'H>=q engineered k-(s0+2^l)e = ' + an, dict(need_tp=1)))
+    # the INTEGER product (s0 + 2^l) d before its reduction: private keys d = T div (s0 + 2^l) for targets T whose words above the low
+    # l + 1 bits are all ones (up to 3l bits, and up to one 64- / 32-bit word beyond 2l bits), with hashes whose addition carries out of
+    # the low 2l bits: every carry that must ripple through all-ones words of the intermediate (s0 does not depend on d)
+    for l in LEVELS:
+        q = B.q_of(l); ks = B.k_alphabet(l); oid = B.OID_BELT
+        for hn, H in [('ones', B.enc(l, 2 ** (2 * l) - 1)), ('top bit', B.enc(l, 2 ** (2 * l - 1))), ('q-1', B.enc(l, q - 1))]:
+            for kn, k in ks[:2 if (full or l == 128) else 1]:
+                s0 = B.dec(B.R._s0(l, oid, B.mulG(l, k), bytes(H)))
+                for tn, T in (('2^3l-1', 2 ** (3 * l) - 1), ('2^3l-2^(l+2)', 2 ** (3 * l) - 2 ** (l + 2)), ('2^(2l+64)-1', 2 ** (2 * l + 64) - 1),
+                              ('2^(2l+32)-1', 2 ** (2 * l + 32) - 1), ('2^(2l+65)-1', 2 ** (2 * l + 65) - 1), ('2^(2l+128)-1', 2 ** (2 * l + 128) - 1)):
+                    d = T // (s0 + 2 ** l)
+                    if 0 < d < q:
+                        out.append(item('ref', 'bignSign', B.c_sign(l, oid, H, d, B.enc(l, k)), 'engineered (s0+2^l)d = %s - r, hash %s' % (tn, hn)))
+                        out.append(item('ref', 'bignIdSign', B.c_idsign(l, oid, B.h0_alphabet(l)[0][1], H, d, B.enc(l, k)), 'engineered (s0+2^l)e = %s - r, hash %s' % (tn, hn), dict(need_tp=1)))
     return out
 
 def sp_idsign(tier):
